@@ -5,8 +5,11 @@ TRUSTED_BASE = [
     "Lean 4.33.0 kernel (leanchecker re-check in the thorough tier); Mathlib v4.33.0 as installed",
     "axioms: subset of {propext, Classical.choice, Quot.sound}; no native_decide, bv_decide, sorry, admit, added axioms",
     "FloatSpec fields (IEEE-754 binary64 round-to-nearest for + - * / sqrt, exact fmod/floor/ceil/abs/neg, saturating "
-    "float->usize cast, listed glibc libm sanity bounds): hypotheses of the S-tier theorems, proved consistent "
-    "(Spec/RealWitness.lean), not proved of the hardware",
+    "float->usize cast, listed glibc libm sanity bounds): hypotheses of the S-tier theorems, proved to hold of exact real "
+    "arithmetic (Spec/RealWitness.lean) AND of a genuinely rounding arithmetic - round-to-nearest onto the binary64 grid "
+    "(53-bit significands, subnormals to 2^-1074, exponent unbounded above), correctly rounded libm "
+    "(Spec/Round53.lean, Spec/RoundWitness.lean: monotone rounding, 2^-53 error bound, Sterbenz, exact fmod all proved) - "
+    "not proved of the hardware/glibc (monitored on the arith.* probe lines of every run)",
     "hand-written Lean model = code: checked by the bit-exact correspondence on generated inputs (differential testing; "
     "generator quality bounds it)",
     "modelled, not verified: usize as unbounded Nat (overflow outside the 2^40 domain), Rust evaluation order and operator "
